@@ -63,8 +63,12 @@ impl Scenario for HeightLimit {
             let st = keep.state.clone();
             let x0 = fresh();
             let v = st.var(x0.clone());
-            let shape = choose(2);
-            // shape 0: plain chain; shape 1: chain ending in a bind (main sits 2 above its lhs)
+            let shape = choose(3);
+            // shape 0: plain chain; shape 1: chain ending in a bind (main sits 2 above its lhs);
+            // shape 2: a two-input node whose first input is the chain and whose second input is a
+            // variable that nothing else needs (a rejection inside the chain leaves it half linked)
+            let side = st.var(fresh());
+            let side_v = side.get();
             let delta = choose(3); // wanted top height = n - 1 + delta
             let want = n + delta - 1;
             let build = |want: usize, v: &Incr<SV>| -> Option<(Incr<SV>, Box<dyn Fn(&SV) -> SV>)> {
@@ -73,6 +77,14 @@ impl Scenario for HeightLimit {
                 }
                 if shape == 0 {
                     Some(chain(v, want - 1, 0))
+                } else if shape == 2 {
+                    // here `want` is the height of the chain; the two-input node sits one above it, so that
+                    // with delta = 2 it is the chain itself that is rejected while the node is being linked
+                    let (c, ev) = chain(v, want - 1, 0);
+                    let top = c.map2(&side.watch(), |a, b| app(90, &[a.clone(), b.clone()]));
+                    let y = side_v.clone();
+                    cover("two-input-node-over-the-chain");
+                    Some((top, Box::new(move |x: &SV| app(90, &[ev(x), y.clone()]))))
                 } else {
                     if want < 3 {
                         return None;
@@ -85,6 +97,7 @@ impl Scenario for HeightLimit {
                 }
             };
             let Some((top, eval)) = build(want, &v.watch()) else { return };
+            let want = if shape == 2 { want + 1 } else { want };
             op_log(format!("shape {shape}: top height {want} (limit {n})"));
             let o = top.observe();
             let r = catch(|| st.stabilise());
